@@ -52,7 +52,7 @@ def observe(xform: str, itemsets) -> dict:
             oref = (ref or "") + "_other"
             if oref in binds:
                 o["other"] = {"relevant": binds[oref].get("relevant"), "type": binds[oref].get("type"),
-                              "input": inputs.get(oref)}
+                              "input": "yes" if oref in inputs else "no"}
             selects.append(o)
     grid = None
     if itemsets is not None:
